@@ -732,15 +732,15 @@ namespace awkward {
     bool
     String(const char* str, rj::SizeType length, bool copy) {
       moved_ = true;
-      if (nan_string_ != nullptr  &&  strcmp(str, nan_string_) == 0) {
+      if (same_string(str, length, nan_string_)) {
         builder_.real(std::numeric_limits<double>::quiet_NaN());
         return true;
       }
-      else if (infinity_string_ != nullptr  &&  strcmp(str, infinity_string_) == 0) {
+      else if (same_string(str, length, infinity_string_)) {
         builder_.real(std::numeric_limits<double>::infinity());
         return true;
       }
-      else if (minus_infinity_string_ != nullptr  &&  strcmp(str, minus_infinity_string_) == 0) {
+      else if (same_string(str, length, minus_infinity_string_)) {
         builder_.real(-std::numeric_limits<double>::infinity());
         return true;
       }
@@ -790,6 +790,15 @@ namespace awkward {
     }
 
   private:
+    /// @brief True if the JSON string `str` of `length` bytes (which may
+    /// contain embedded zero bytes, written as \u0000) is exactly `special`.
+    static bool
+    same_string(const char* str, rj::SizeType length, const char* special) {
+      return special != nullptr  &&
+             strlen(special) == (size_t)length  &&
+             memcmp(str, special, (size_t)length) == 0;
+    }
+
     ArrayBuilder builder_;
     bool moved_;
     const char* nan_string_;
